@@ -24,7 +24,7 @@
    format has no place for the distinction): tagged_blocks=None beside a layer info, layer_count=0
    with (empty) lists, opacity/kind without overlay colour, presence flag without parameters. *)
 From PsdV Require Import Base.Prelude Psd.Codec Psd.Model Psd.Legacy Psd.Proofs Psd.Leaf Psd.LeafProofs Psd.Descriptor Psd.DescriptorProofs Psd.Effects Psd.EffectsProofs
-  Psd.Patterns Psd.PatternsProofs Psd.Struct Psd.Adjust Psd.AdjustProofs Psd.Vector Psd.VectorProofs Psd.Linked Psd.LinkedProofs Psd.FilterFx Psd.FilterFxProofs Psd.Rsrc Psd.RsrcProofs Psd.Slices Psd.SlicesProofs Psd.Typed.
+  Psd.Patterns Psd.PatternsProofs Psd.Struct Psd.Adjust Psd.AdjustProofs Psd.Vector Psd.VectorProofs Psd.Linked Psd.LinkedProofs Psd.FilterFx Psd.FilterFxProofs Psd.Rsrc Psd.RsrcProofs Psd.Slices Psd.SlicesProofs Psd.Misc Psd.MiscProofs Psd.Meta Psd.MetaProofs Psd.LrBlockProofs Psd.Typed.
 From Coq Require Import ZArith List Bool Lia.
 Import ListNotations.
 Open Scope Z_scope.
@@ -741,6 +741,102 @@ Proof.
   split; vm_compute; reflexivity.
 Qed.
 Print Assumptions slices_roundtrip_refuted.
+
+(* ------------------------------------------------------------------ Stage 3 (6): Psd/Misc.v, Psd/Meta.v
+   UserMask, SmartObjectLayerData, PlacedLayerData, TypeToolObjectSetting (engine data opaque: a RawData value like any
+   other), PixelSourceData2, MetadataSettings / MetadataSetting, Annotations / Annotation. *)
+Theorem user_mask_roundtrip : forall cid vals op fl bs n,
+  write_user_mask cid vals op fl = Ok (bs, n) -> read_user_mask bs = Ok (cid, vals, op, fl) /\ n = len bs.
+Proof. intros cid vals op fl bs n H. split; [exact (user_mask_rt cid vals op fl bs n H)|exact (wtruth_user_mask cid vals op fl bs n H)]. Qed.
+Print Assumptions user_mask_roundtrip.
+Theorem smart_object_layer_data_roundtrip : forall units t pad kind version b bs n,
+  wf_terms t = true -> wf_sold units kind version b = true -> write_sold t pad kind version b = Ok (bs, n) ->
+  read_sold units t bs = Ok (kind, version, b, t) /\ n = len bs.
+Proof.
+  intros units t pad kind version b bs n Hw Hwf H.
+  split; [exact (sold_rt units t pad kind version b bs n Hw Hwf H)|exact (wtruth_sold t pad kind version b bs n H)].
+Qed.
+Print Assumptions smart_object_layer_data_roundtrip.
+Theorem placed_layer_data_roundtrip : forall enc_s dec_s units t pad x bs n,
+  wf_terms t = true -> wf_placed enc_s dec_s units x = true -> write_placed enc_s t pad x = Ok (bs, n) ->
+  read_placed dec_s units t bs = Ok (x, t) /\ n = len bs.
+Proof.
+  intros enc_s dec_s units t pad x bs n Hw Hwf H.
+  split; [exact (placed_rt enc_s dec_s units t pad x bs n Hw Hwf H)|exact (wtruth_placed enc_s t pad x bs n H)].
+Qed.
+Print Assumptions placed_layer_data_roundtrip.
+Theorem type_tool_object_setting_roundtrip : forall units t pad x bs n,
+  wf_terms t = true -> wf_typetool units x = true -> write_typetool t pad x = Ok (bs, n) ->
+  read_typetool units t bs = Ok (x, t) /\ n = len bs.
+Proof.
+  intros units t pad x bs n Hw Hwf H. split; [exact (typetool_rt units t pad x bs n Hw Hwf H)|exact (wtruth_typetool t pad x bs n H)].
+Qed.
+Print Assumptions type_tool_object_setting_roundtrip.
+Theorem pixel_source_data_roundtrip : forall pad l bs n,
+  0 < pad <= 8 -> write_pixel_sources pad l = Ok (bs, n) -> read_pixel_sources (S (length bs)) bs = Ok l /\ n = len bs.
+Proof. intros pad l bs n Hp H. split; [exact (pixel_sources_rt pad l bs n Hp H)|exact (wtruth_pixel_sources pad l bs n H)]. Qed.
+Print Assumptions pixel_source_data_roundtrip.
+Theorem metadata_settings_roundtrip : forall units t l bs n,
+  wf_terms t = true -> forallb (wf_msetting units) l = true -> write_msettings t l = Ok (bs, n) ->
+  read_msettings units t bs = Ok (l, t) /\ n = len bs.
+Proof. intros units t l bs n Hw Hwf H. split; [exact (msettings_rt units t l bs n Hw Hwf H)|exact (wtruth_msettings t l bs n H)]. Qed.
+Print Assumptions metadata_settings_roundtrip.
+Theorem annotations_roundtrip : forall enc_s dec_s major minor l bs n,
+  forallb (wf_annotation enc_s dec_s) l = true -> write_annotations enc_s major minor l = Ok (bs, n) ->
+  read_annotations dec_s bs = Ok (major, minor, l) /\ n = len bs.
+Proof.
+  intros enc_s dec_s major minor l bs n Hwf H.
+  split; [exact (annotations_rt enc_s dec_s major minor l bs n Hwf H)|exact (wtruth_annotations enc_s major minor l bs n H)].
+Qed.
+Print Assumptions annotations_roundtrip.
+(* one of them inside its TaggedBlock, as an instance of the generic composition *)
+Theorem type_tool_block_roundtrip : forall units t v pad sg key x bs n rest,
+  (pad = 1 \/ pad = 2 \/ pad = 4) -> memz sg model_tb_sigs = true -> wf_terms t = true -> wf_typetool units x = true ->
+  write_payload_block v pad sg key (write_typetool t (inner_padding pad) x) = Ok (bs, n) ->
+  read_payload_block (read_typetool units t) v pad (bs ++ rest) = Ok (Some (sg, key, (x, t), rest)).
+Proof.
+  intros units t v pad sg key x bs n rest Hp Hs Hw Hwf H.
+  apply (payload_block_rt v pad sg key (write_typetool t (inner_padding pad) x) (read_typetool units t) (x, t) bs n rest Hp Hs
+           (wtruth_typetool t (inner_padding pad) x)); [|exact H].
+  intros body m Hb. exact (typetool_rt units t (inner_padding pad) x body m Hw Hwf Hb).
+Qed.
+Print Assumptions type_tool_block_roundtrip.
+
+Example stage3_6_satisfiable :
+  wf_typetool [] (mkTySh 1 [4607182418800017408; 0; 0; 4607182418800017408; 0; 0] 50 (DBlock 16 ex_ll_desc) 1 (DBlock 16 ex_ll_desc) [-1; 0; 10; 20]) = true /\
+  forallb (wf_msetting []) [mkMeta sig_8BIM 0x6d64796e 0 (MInt 7); mkMeta sig_8BIM 0x63757374 1 (MDesc (DBlock 16 ex_ll_desc));
+                            mkMeta 0x38454c45 0x61626364 0 (MRaw [1; 2; 3])] = true /\
+  (exists bs n, write_msettings [] [mkMeta sig_8BIM 0x6d64796e 0 (MInt 7); mkMeta 0x38454c45 0x61626364 0 (MRaw [1; 2; 3])] = Ok (bs, n) /\ n = 43).
+Proof. split; [vm_compute; reflexivity|]. split; [vm_compute; reflexivity|]. do 2 eexists. split; [vm_compute; reflexivity|reflexivity]. Qed.
+
+(* what the guards exclude: the writer of a metadata item goes by the type of its data, the reader by its key - raw
+   bytes under a descriptor key are written and then read as a descriptor block *)
+Theorem metadata_setting_roundtrip_refuted :
+  exists bs n, write_msettings [] [mkMeta sig_8BIM 0x63757374 0 (MRaw [1; 2; 3])] = Ok (bs, n) /\ read_msettings [] [] bs = Err IOErr.
+Proof.
+  exists (match write_msettings [] [mkMeta sig_8BIM 0x63757374 0 (MRaw [1; 2; 3])] with Ok (b, _) => b | Err _ => [] end).
+  exists (match write_msettings [] [mkMeta sig_8BIM 0x63757374 0 (MRaw [1; 2; 3])] with Ok (_, n) => n | Err _ => 0 end).
+  split; vm_compute; reflexivity.
+Qed.
+Print Assumptions metadata_setting_roundtrip_refuted.
+
+(* ------------------------------------------------------------------ LayerInfoBlock ('Lr16' / 'Lr32')
+   The body of a LayerInfo as the payload of a tagged block: what is read back is the structure as it is after write
+   refreshed the channel lengths ([li_update]), for any number of layers and channels, both versions, any padding. *)
+Theorem layer_info_block_roundtrip : forall enc_s dec_s v pad li bs n,
+  wf_lr_block enc_s dec_s li = true -> write_lr_block enc_s v pad li = Ok (bs, n) ->
+  read_lr_block dec_s v bs = Ok (li_update li) /\ n = len bs.
+Proof.
+  intros enc_s dec_s v pad li bs n Hwf H.
+  split; [exact (lr_block_rt enc_s dec_s v pad li bs n Hwf H)|exact (wtruth_lr_block enc_s v pad li bs n H)].
+Qed.
+Print Assumptions layer_info_block_roundtrip.
+(* an empty block built with None in place of its two empty lists comes back with the lists *)
+Theorem layer_info_block_roundtrip_refuted :
+  exists bs n, write_lr_block raw_codec 1 4 (mkLI 0 None None) = Ok (bs, n) /\
+               read_lr_block raw_codec 1 bs = Ok (mkLI 0 (Some []) (Some [])).
+Proof. exists [0; 0; 0; 0], 4. split; vm_compute; reflexivity. Qed.
+Print Assumptions layer_info_block_roundtrip_refuted.
 
 (* back-patching the length = emitting the inner bytes after the packed length *)
 Theorem length_block_backpatch : forall buf lb body,
